@@ -1,7 +1,12 @@
 -------------------------------- MODULE PoSA --------------------------------
 (***************************************************************************)
 (* C29 - proof-of-staked-authority light clients                           *)
-(*   native/service/header_sync/{bsc,bytom,heco,hsc,pixiechain}/header_sync.go *)
+(*   native/service/header_sync/{bsc,bytom,heco,hsc,pixiechain,msc}/header_sync.go *)
+(*   native/service/header_sync/polygon/bor_header_sync.go                 *)
+(* One constant Family per rule set: "bsc" (bsc, bytom), "heco" (heco,     *)
+(* hsc), "pixie", "clique" (msc; see CliqueOK) and "bor" (see BorOK).  The *)
+(* description below is the bsc-family shape; the other two families       *)
+(* replace the verdict operator and share headers, storage and fork choice.*)
 (*                                                                         *)
 (* A header is identified by its content, and its content by the path from *)
 (* the trusted genesis header: a sequence of elements [s, d, a]            *)
